@@ -11,40 +11,55 @@ avoid coordinate differences of exactly 1, so they are independent of the triSig
 namespace C15
 open Gen Model
 
-/-- a closed path is trimmed to nothing or to at least 3 vertices -/
-theorem trim_closed_size (path : Array Point64) :
-    (trimCollinear path false).size = 0 ∨ 3 ≤ (trimCollinear path false).size := by
-  sorry
+/-- FULL statement "a closed path is trimmed to nothing or to at least 3 vertices" — FALSE on the
+    current tree: `isCollinear a b a` is not always true (triSign treats a difference of +1 as 0,
+    KNOWN_FINDINGS site:triSign-plus-one), and then the closing test keeps a 2-vertex result.
+    Witness (replayed on the real code by the C15 search): closed (0,0),(3,-3),(1,-1) ↦ (0,0),(1,-1). -/
+theorem trim_closed_size_full_false :
+    ¬ ∀ path : Array Point64,
+      (trimCollinear path false).size = 0 ∨ 3 ≤ (trimCollinear path false).size :=
+  Proofs.C15.closed_size_false
+
+/-- what does hold: empty, at least 3 vertices, or exactly the two vertices `a, b` for which the
+    collinearity predicate denies `isCollinear a b a` -/
+theorem trim_closed_size_partial (path : Array Point64) :
+    (trimCollinear path false).size = 0 ∨ 3 ≤ (trimCollinear path false).size ∨
+      ∃ a b, trimCollinear path false = #[a, b] ∧ a ∈ path ∧ b ∈ path ∧ isCollinear a b a = false :=
+  Proofs.C15.closed_size_weak path
+
+/-- a closed result never consists of a single vertex -/
+theorem trim_closed_size_ne_one (path : Array Point64) : (trimCollinear path false).size ≠ 1 :=
+  Proofs.C15.closed_size_ne_one path
 
 /-- open paths: the result is a sub-sequence of the input -/
 theorem trim_open_sublist (path : Array Point64) :
     (trimCollinear path true).toList.Sublist path.toList := by
-  sorry
+  exact Proofs.C15.open_sublist path
 
 /-- open paths: a non-empty result keeps both end points -/
 theorem trim_open_ends (path : Array Point64) (h : (trimCollinear path true).size ≠ 0) :
     (trimCollinear path true)[0]? = path[0]? ∧ (trimCollinear path true).back? = path.back? := by
-  sorry
+  exact Proofs.C15.open_ends path h
 
 /-- closed paths: the result is a sub-sequence of a rotation of the input (a cyclic sub-sequence) -/
 theorem trim_closed_cyclic_sublist (path : Array Point64) :
     ∃ k, (trimCollinear path false).toList.Sublist (path.toList.drop k ++ path.toList.take k) := by
-  sorry
+  exact Proofs.C15.closed_cyclic_sublist path
 
 /-- paths with fewer than 3 vertices: closed ↦ empty -/
 theorem trim_closed_short (path : Array Point64) (h : path.size < 3) : trimCollinear path false = #[] := by
-  sorry
+  exact Proofs.C15.closed_short path h
 
 /-- full-strength idempotence is false: witness -/
 def idemWitness : Array Point64 := #[⟨0, 0⟩, ⟨0, 2⟩, ⟨0, 0⟩, ⟨4, 0⟩, ⟨0, 4⟩, ⟨2, 0⟩]
 
 theorem trim_idempotent_full_false :
     trimCollinear (trimCollinear idemWitness false) false ≠ trimCollinear idemWitness false := by
-  sorry
+  decide +kernel
 
 /-- and the first trim leaves three cyclically consecutive collinear vertices (2,0),(0,0),(4,0) -/
 theorem trim_no_three_collinear_full_false :
     trimCollinear idemWitness false = #[⟨0, 0⟩, ⟨4, 0⟩, ⟨0, 4⟩, ⟨2, 0⟩] ∧ crossZ ⟨2, 0⟩ ⟨0, 0⟩ ⟨4, 0⟩ = 0 := by
-  sorry
+  decide +kernel
 
 end C15
